@@ -176,6 +176,8 @@ type c13Case struct {
 	// checker
 	Selected []string `json:"selected,omitempty"`
 	ViaCtx   bool     `json:"viaCtx,omitempty"` // use PersistContext setters instead of TypedBucket setters
+	// Overrides: stored field name -> name the checker is asked about (PersistContext.WithFieldOverrides / NewMappedFieldChecker)
+	Overrides map[string]string `json:"overrides,omitempty"`
 	// codec
 	ListA [][]byte `json:"listA,omitempty"`
 	ListB [][]byte `json:"listB,omitempty"`
@@ -265,6 +267,14 @@ func genContainer(t *rapid.T, l string, depth int) TV {
 	n := rapid.IntRange(0, 3).Draw(t, l+"_n")
 	if rapid.Bool().Draw(t, l+"_isList") {
 		v := TV{K: "list"}
+		if rapid.IntRange(0, 24).Draw(t, l+"_long") == 0 {
+			// a long list of distinct scalars (more than 256 elements)
+			m := []int{257, 300, 600}[rapid.IntRange(0, 2).Draw(t, l+"_longn")]
+			for i := 0; i < m; i++ {
+				v.L = append(v.L, TV{K: "i64", I: int64(i)})
+			}
+			return v
+		}
 		for i := 0; i < n; i++ {
 			v.L = append(v.L, genContainer(t, fmt.Sprintf("%s_l%d", l, i), depth-1))
 		}
@@ -342,6 +352,23 @@ func genC13(t *rapid.T) c13Case {
 			c.Fields = append(c.Fields, f)
 			if rapid.Bool().Draw(t, l+"_sel") {
 				c.Selected = append(c.Selected, f.Name)
+			}
+		}
+		if rapid.IntRange(0, 2).Draw(t, "withOverrides") == 0 {
+			// some stored fields are exposed to the checker under another name, possibly the stored name of another field
+			c.Overrides = map[string]string{}
+			for i, f := range c.Fields {
+				switch rapid.IntRange(0, 3).Draw(t, fmt.Sprintf("ov%d", i)) {
+				case 0:
+					c.Overrides[f.Name] = "public-" + f.Name
+				case 1:
+					c.Overrides[f.Name] = c.Fields[(i+1)%len(c.Fields)].Name
+				}
+			}
+			for _, f := range c.Fields {
+				if rapid.Bool().Draw(t, "selOv_"+f.Name) {
+					c.Selected = append(c.Selected, "public-"+f.Name)
+				}
 			}
 		}
 		return c
@@ -614,12 +641,19 @@ func runC13(c c13Case) kit.Result {
 				b := boltz.GetOrCreatePath(tx, "root", "ent")
 				if c.ViaCtx {
 					ctx := &boltz.PersistContext{Bucket: b, FieldChecker: sel}
+					if len(c.Overrides) > 0 {
+						ctx.WithFieldOverrides(c.Overrides)
+					}
 					for _, f := range c.Fields {
 						writeFieldCtx(ctx, f.Name, f.V2)
 					}
 				} else {
+					var checker boltz.FieldChecker = sel
+					if len(c.Overrides) > 0 {
+						checker = boltz.NewMappedFieldChecker(sel, c.Overrides)
+					}
 					for _, f := range c.Fields {
-						writeField(b, f.Name, f.V2, sel)
+						writeField(b, f.Name, f.V2, checker)
 					}
 				}
 				return b.GetError()
@@ -632,15 +666,23 @@ func runC13(c c13Case) kit.Result {
 		_ = db.DB.View(func(tx *bbolt.Tx) error {
 			b := boltz.Path(tx, "root", "ent")
 			for _, f := range c.Fields {
+				// a field is written iff the checker selects the name it is exposed under
+				asked := f.Name
+				if o, ok := c.Overrides[f.Name]; ok {
+					asked = o
+				}
+				_, on := sel[asked]
 				want := f.V
-				if _, on := sel[f.Name]; on {
+				if on {
 					want = f.V2
 				}
 				if d := checkField(b, f.Name, want); d != "" {
-					_, on := sel[f.Name]
-					res.Err = fmt.Errorf("field checker selecting %v (field selected: %v): %s", c.Selected, on, d)
+					res.Err = fmt.Errorf("field checker selecting %v, overrides %v (field %s is asked about as %q, selected: %v): %s", c.Selected, c.Overrides, f.Name, asked, on, d)
 					return nil
 				}
+			}
+			if len(c.Overrides) > 0 {
+				res.Classes = append(res.Classes, "mapped-field-checker")
 			}
 			return nil
 		})
